@@ -178,8 +178,8 @@ fn main() {
 }
 
 /// Run `worker` in a child process. Exit codes 0/1/2 pass through. Death by signal is localised
-/// through the slot file and reported as C10.abort (only the C10 check reports it as a violation;
-/// for other properties it is a harness-level failure, exit 2, because the oracle could not run).
+/// through the slot file, reproduced in a fresh child, and reported as `<ID>.abort` against the property
+/// being checked: the library neither returned what the property demands nor rejected the input.
 fn supervise(id: &str, tier: &str, rest: &[String]) -> i32 {
     use std::os::unix::process::ExitStatusExt;
     let exe = std::env::current_exe().expect("current exe");
@@ -213,9 +213,12 @@ fn supervise(id: &str, tier: &str, rest: &[String]) -> i32 {
         let Some(u) = spec.units.get(ui) else { continue };
         // write a candidate replay and see whether it kills a fresh child
         let case = u.world.case_json(seed, u.scenario, run);
-        let fname = format!("{}/replays/C10-{}-{}-{}-{}-abort.json", report::verif_root(), seed, u.world.name(), u.scenario, run);
+        let fname = format!("{}/replays/{}-{}-{}-{}-{}-abort.json", report::verif_root(), id, seed, u.world.name(), u.scenario, run);
+        // a process death while executing a case of this property's workload means the library neither returned the
+        // result the property demands nor rejected the input: it is reported against this property (and is, besides, what
+        // C10 calls an abort)
         let replay = serde_json::json!({
-            "property": "C10", "invariant": "C10.abort", "key": format!("signal{}", sig), "world": u.world.name(), "scenario": u.scenario,
+            "property": id, "invariant": format!("{}.abort", id), "key": format!("signal{}", sig), "world": u.world.name(), "scenario": u.scenario,
             "seed": seed, "run": run, "minimised": false, "detail": format!("process died by signal {} while executing this case", sig), "case": case,
         });
         let _ = std::fs::create_dir_all(format!("{}/replays", report::verif_root()));
@@ -226,17 +229,13 @@ fn supervise(id: &str, tier: &str, rest: &[String]) -> i32 {
         let died = matches!(&st, Ok(s) if s.code().is_none());
         if died {
             reported += 1;
-            if id == "C10" {
-                println!("  violated C10.abort: process died by signal {} in world={} scenario={} run={}", sig, u.world.name(), u.scenario, run);
-                println!("VIOLATION property=C10 replay={}", fname);
-            } else {
-                eprintln!("HARNESS-ERROR: worker for {} died by signal {} (world={} scenario={} run={}); this is attributed to C10 (replay {})", id, sig, u.world.name(), u.scenario, run, fname);
-            }
+            println!("  violated {}.abort: process died by signal {} in world={} scenario={} run={}", id, sig, u.world.name(), u.scenario, run);
+            println!("VIOLATION property={} replay={}", id, fname);
         } else {
             let _ = std::fs::remove_file(&fname);
         }
     }
-    if reported > 0 && id == "C10" {
+    if reported > 0 {
         1
     } else {
         if reported == 0 {
